@@ -159,6 +159,7 @@ def arith_shape(fn):
 CONV_TABLES = {}   # name -> list of (int key, lean val)
 ENUM_TABLES = {}   # table name -> (enum class name, width)
 ROT_TABLES = []    # names of tabulated non-enum decode-side converters on float fields (to_turn)
+FROM_ROT_TABLES = []   # names of tabulated non-enum encode-side converters (from_turn)
 ENUM_CLASSES = {}  # enum class name -> class
 
 
@@ -197,7 +198,7 @@ def raw_domain(width, signed):
     return range(0, 1 << width)
 
 
-def translate_conv(fn, field_name, cls_name, width, signed, d_type, direction):
+def translate_conv(fn, field_name, cls_name, width, signed, d_type, direction, partner=None):
     """direction: 'to' (after decoding, domain = raw wire values), 'from' (before encoding),
     'attr' (attrs-level converter, applied on both paths)"""
     if fn is None:
@@ -225,8 +226,21 @@ def translate_conv(fn, field_name, cls_name, width, signed, d_type, direction):
         elif name not in ROT_TABLES:
             ROT_TABLES.append(name)
     else:
-        # encode-side non-enum converter (from_turn): integer inputs in a generous window
-        name = tabulate(fn, range(-1000, 1001), d_type is float, 'enc')
+        # encode-side non-enum converter (from_turn): every integral value its decode-side partner can
+        # produce on the raw domain (the wire-representable values) plus a window of small integers
+        keys = set(range(-130, 131))
+        if partner is not None:
+            for raw in raw_domain(width, signed):
+                try:
+                    v = partner(float(raw)) if d_type is float else partner(raw)
+                    v = v.value if isinstance(v, enum.Enum) else v
+                    if float(v) == int(v):
+                        keys.add(int(v))
+                except Exception:  # noqa
+                    pass
+        name = tabulate(fn, sorted(keys), d_type is float, 'enc')
+        if name not in FROM_ROT_TABLES:
+            FROM_ROT_TABLES.append(name)
     return '.table %s' % lean_str(name)
 
 
@@ -435,7 +449,7 @@ def main():
                 if dflt is None:
                     untrans('%s.%s: default %r' % (name, f.name, md['default']))
                     dflt = '.none'
-                fc = translate_conv(md['from_converter'], f.name, name, width, signed, d_type, 'from')
+                fc = translate_conv(md['from_converter'], f.name, name, width, signed, d_type, 'from', md['to_converter'])
                 tc = translate_conv(md['to_converter'], f.name, name, width, signed, d_type, 'to')
                 ac = translate_conv(f.converter, f.name, name, width, signed, d_type, 'attr')
             except KeyError as e:
@@ -515,6 +529,9 @@ def main():
     L.append('')
     L.append('/-- tabulated non-enum decode-side converters (rate of turn) -/')
     L.append('def rotTables : List String := %s' % lean_list([lean_str(n) for n in ROT_TABLES]))
+    L.append('')
+    L.append('/-- tabulated non-enum encode-side converters (from_turn) -/')
+    L.append('def fromRotTables : List String := %s' % lean_list([lean_str(n) for n in FROM_ROT_TABLES]))
     L.append('')
     L.append('def env : Env := { classes := classes, msgClass := msgClass, decodeTrees := decodeTrees,')
     L.append('                   createTrees := createTrees, convTables := convTables }')
